@@ -1,5 +1,6 @@
 import QuantemModel.Core.Proto
 import QuantemModel.Model.Aberration
+import QuantemModel.Model.AberrationState
 open Lean QuantemModel QuantemModel.Proto
 open QuantemModel.Generated.Aberration QuantemModel.Aberration
 
@@ -78,6 +79,74 @@ def basisLookup (labels : List String) (cols : List Float) (l : String) : Option
   | a :: as, c :: cs => if a = l then some c else basisLookup as cs l
   | _, _ => none
 
+/-! growth round 5: values `float()` rejects, and the alias code as state carried between calls -/
+
+def errOfName : String → Err
+  | "KeyError" => .keyError | "TypeError" => .typeError | _ => .valueError
+
+def xvalOfJson (v : Json) : Except String (XVal Float) :=
+  match v with
+  | .null => pure XVal.none
+  | v =>
+    match v.getObjVal? "n" with
+    | .ok n => do pure (XVal.num (← floatOfJson n))
+    | .error _ =>
+      match v.getObjVal? "b" with
+      | .ok b => do pure (XVal.bad (errOfName (← b.getStr?)))
+      | .error _ => throw "xval"
+
+def xvalToJson : XVal Float → Json
+  | .none => Json.null
+  | .num x => Json.mkObj [("n", fl x)]
+  | .bad e => Json.mkObj [("b", Json.str (errName e))]
+
+def xItems (j : Json) : Except String (List (String × XVal Float)) := do
+  (← j.getArr?).toList.mapM fun it => do
+    let a ← it.getArr?
+    if a.size != 2 then throw "item" else
+    pure (← a[0]!.getStr?, ← xvalOfJson a[1]!)
+
+def xtopOfJson (v : Json) : Except String (XTop Float) :=
+  match v.getObjVal? "d" with
+  | .ok d => do pure (XTop.dict (← xItems d))
+  | .error _ => do pure (XTop.leaf (← xvalOfJson v))
+
+def xtopToJson : XTop Float → Json
+  | .leaf v => xvalToJson v
+  | .dict items => Json.mkObj [("d", Json.arr (items.map fun (k, v) => Json.arr #[Json.str k, xvalToJson v]).toArray)]
+
+def xtopItems (j : Json) : Except String (List (String × XTop Float)) := do
+  (← j.getArr?).toList.mapM fun it => do
+    let a ← it.getArr?
+    if a.size != 2 then throw "item" else
+    pure (← a[0]!.getStr?, ← xtopOfJson a[1]!)
+
+def pstateJson (e : Option Err) (st : PState Float) : Json :=
+  Json.mkObj [("err", match e with | none => Json.null | some e => Json.str (errName e)),
+              ("top", Json.arr (st.top.map fun (k, v) => Json.arr #[Json.str k, xtopToJson v]).toArray),
+              ("aber", dictToJson st.aber)]
+
+def optXItems (j : Json) (k : String) : Except String (Option (List (String × XVal Float))) :=
+  match j.getObjVal? k with
+  | .ok .null => pure none
+  | .ok v => do pure (some (← xItems v))
+  | .error _ => pure none
+
+def hopOfJson (j : Json) : Except String (HOp Float) := do
+  let t ← strField j "t"
+  match t with
+  | "current" => pure (HOp.current (← optXItems j "o"))
+  | "clear_optimized" => pure HOp.clearOptimized
+  | "clear_all" => pure HOp.clearAll
+  | "search" => pure (HOp.search (← xItems (← field j "best")) (← xItems (← field j "fixed")))
+  | "cc" => pure (HOp.crossCorrelation (← xItems (← field j "o")) (← xItems (← field j "fit")))
+  | _ => throw s!"unknown hop {t}"
+
+def exceptDictJson (r : Except Err (List (String × Float))) : Json :=
+  match r with
+  | .ok d => Json.mkObj [("ok", dictToJson d)]
+  | .error e => Json.mkObj [("err", Json.str (errName e))]
+
 def step (st : Unit) (j : Json) : Unit × Json :=
   match (do
     let op ← strField j "op"
@@ -139,6 +208,29 @@ def step (st : Unit) (j : Json) : Unit × Json :=
         let l ← pvalItems (← field j "items")
         let mo := (natField j "max_order").toOption
         pure (exceptJson (probeParams DEFAULT_PROBE_PARAM_KEYS POLAR_SYMBOLS POLAR_ALIASES mo l))
+    | "validate_x" =>
+        let l ← xItems (← field j "items")
+        pure (exceptJson (validateX VALIDATORS_POLAR_SYMBOLS VALIDATORS_POLAR_ALIASES l))
+    | "pp_history" =>
+        let top ← xtopItems (← field j "init_top")
+        let aber ← dictOfJson (← field j "init_aber")
+        let mo := (natField j "max_order").toOption
+        let hist ← (← arrField j "history").toList.mapM xtopItems
+        let rs := PState.run DEFAULT_PROBE_PARAM_KEYS POLAR_SYMBOLS POLAR_ALIASES mo ⟨top, aber⟩ hist
+        pure (okJson (Json.arr (rs.map fun (e, s) => pstateJson e s).toArray))
+    | "h_history" =>
+        let ini ← xItems (← field j "initial")
+        let ops ← (← arrField j "ops").toList.mapM hopOfJson
+        match HState.create VALIDATORS_POLAR_SYMBOLS VALIDATORS_POLAR_ALIASES ini with
+        | .error e => pure (okJson (Json.mkObj [("create", Json.str (errName e)), ("steps", Json.arr #[])]))
+        | .ok st0 =>
+          let rs := HState.run VALIDATORS_POLAR_SYMBOLS VALIDATORS_POLAR_ALIASES st0 ops
+          pure (okJson (Json.mkObj [("create", Json.null), ("initial", dictToJson st0.initial),
+            ("steps", Json.arr (rs.map fun (o, s) => Json.mkObj [("out", exceptDictJson o),
+              ("initial", dictToJson s.initial), ("optimized", dictToJson s.optimized)]).toArray)]))
+    | "cc_shift_coefs" =>
+        let l ← xItems (← field j "items")
+        pure (exceptJson (crossCorrelationShiftCoefs VALIDATORS_POLAR_SYMBOLS VALIDATORS_POLAR_ALIASES l))
     | "shifts" =>
         let c ← envField j "coefs"
         let lam ← floatOfJson (← field j "lam")
